@@ -304,8 +304,8 @@ func (g *gen) numParam(cands []int, allowHash bool) (string, []val) {
 	}
 }
 
-var padChars = []byte("0_ .-x*")    // x and * end a parameter in slip's scan map
-var commaChars = []byte("._ ,'|")  // , itself cannot be given in slip
+var padChars = []byte("0_ .-x*~(%&,:@{") // the character after ' is taken whatever it is: directive characters, comma, modifiers
+var commaChars = []byte("._ ,'|;]")
 
 func (g *gen) chrParam(pool []byte) (string, []val) {
 	c := common.Pick(g.r, pool)
@@ -314,8 +314,8 @@ func (g *gen) chrParam(pool []byte) (string, []val) {
 		return "'" + string(c), nil
 	}
 	g.ctx.Hist("param:v")
-	if c == ',' || c == '\'' {
-		c = '_' // slip's reader does not read these after #\
+	if strings.IndexByte("(){}[];%&'`", c) >= 0 {
+		c = '_' // slip's reader does not read these after #\ (not this property's subject); 'c covers them
 	}
 	if c == '.' || c == ' ' {
 		g.ctx.Hist("param:V")
